@@ -49,8 +49,24 @@ def member(container_factory, a, b):
         return "unhashable"
 
 
-def universe(objs, tid, render=True):
+def join_decision(fa, fb):
+    """the library's own membership decision when a table is joined: an un-aliased joined table that IS already a source of the statement gets
+    an automatic alias.  't' / 'f' = it did / did not; 'n/a' = the joined table carries an alias (or the join is refused)"""
+    import pypika_tortoise as P
+
+    a, b = fa(), fb()
+    if not isinstance(b, P.Table) or not isinstance(a, P.Table) or b.alias is not None:
+        return "n/a"
+    try:
+        P.Query.from_(a).join(b).on(a.x == b.x)
+    except Exception:  # noqa
+        return "n/a"
+    return "t" if b.alias is not None else "f"
+
+
+def universe(objs, tid, render=True, factories=None):
     n = len(objs)
+    joinalias = [[join_decision(factories[i], factories[j]) if factories else "n/a" for j in range(n)] for i in range(n)]
     eq = [[bool(objs[i] == objs[j]) for j in range(n)] for i in range(n)]
     ne = [[bool(objs[i] != objs[j]) for j in range(n)] for i in range(n)]
     h = [safe_hash(o) for o in objs]
@@ -68,7 +84,7 @@ def universe(objs, tid, render=True):
             str(o)
     eq2 = [[bool(objs[i] == objs[j]) for j in range(n)] for i in range(n)]
     h2 = [safe_hash(o) for o in objs]
-    return {"tid": tid, "kind": "universe", "eq": eq, "ne": ne, "h": h, "inset": inset, "indict": indict, "inlist": inlist, "eq2": eq2, "h2": h2}
+    return {"tid": tid, "kind": "universe", "eq": eq, "ne": ne, "h": h, "inset": inset, "indict": indict, "inlist": inlist, "eq2": eq2, "h2": h2, "joinalias": joinalias}
 
 
 def build_tree(t, tables):
@@ -148,10 +164,10 @@ def run(tier: str) -> int:
     # table universes: per name all 60 variants (transitivity needs the whole class), and a mixed one
     for name in ("t", "u"):
         vs = [v for v in variants if v["name"] == name]
-        events.append(universe([build_variant(v) for v in vs], len(events)))
+        events.append(universe([build_variant(v) for v in vs], len(events), factories=[(lambda v=v: build_variant(v)) for v in vs]))
         meta.append(("Table", [shape(v) for v in vs]))
     mixed = [v for v in variants if v["temporal"] != "portion" and v["schema"] in ("none", "str", "obj")]
-    events.append(universe([build_variant(v) for v in mixed], len(events)))
+    events.append(universe([build_variant(v) for v in mixed], len(events), factories=[(lambda v=v: build_variant(v)) for v in mixed]))
     meta.append(("Table", [shape(v) for v in mixed]))
     for label, objs, shapes in other_universes():
         events.append(universe(objs, len(events)))
